@@ -316,6 +316,10 @@ def class_def(name: str, fullname: str, body=(), bases=(), removed_bases=(), inf
               removed_base_type_exprs=list(removed_bases), info=type_info(fullname, info_bases))
 
 
+def index_expr(base, index):
+    return mk(N.IndexExpr, base=base, index=index, analyzed=None, method_type=None)
+
+
 def base_expr(fullname: str, info_bases=()):
     return name_expr(fullname.split(".")[-1], fullname, node=type_info(fullname, info_bases))
 
